@@ -154,7 +154,9 @@ Lemma sp_attach_fresh t f ts t' r :
 Proof.
   unfold sp_lookup. intros Hl Hf He Hst. cbn in Hst. unfold sp_attach in Hst.
   rewrite decide_False in Hl by done.
-  rewrite decide_True, decide_False, Hl, He in Hst by done. by injection Hst as <- <-.
+  assert (Hn : nn_err (tokn ts 0) = None).
+  { unfold fs_err in He. apply negb_false_iff in He. unfold nn_err. by rewrite He. }
+  rewrite decide_True, decide_False, Hl, Hn in Hst by done. by injection Hst as <- <-.
 Qed.
 
 Lemma sp_open_once t f m ts b t' r :
